@@ -127,12 +127,13 @@ CLAIMED = {
         "value, or absent), assignments to other variables persist, G is exactly what the body left, the overlay stack is as before - on "
         "normal and on exceptional exit. _capture_for_swap captures only the thread's own override; InternalEnvironDict.set_locally / "
         "del_locally / __setitem__ and the real Env._set_item / Env._del_item in thread-local mode never touch G (including the write to a "
-        "`sync` partner; the recursion carries a termination variant); Env.__contains__ and Env.__getitem__ agree: `[]` raises KeyError "
+        "`sync` partner; the recursion carries a termination variant); InternalEnvironDict.get_local_overrides hands out a COPY of the thread's overrides and set_local_overrides makes the thread's overrides exactly the given ones without touching the shared layer "
+        "(the two primitives behind `worker threads inherit the spawner's view`); Env.__contains__ and Env.__getitem__ agree: `[]` raises KeyError "
         "exactly when `in` is False, with the top-most overlay deciding and DELETE_VAR masking. "
         "Bounded stand-in (not proved): every nesting of <= 3 (thorough 4) scopes out of 8 forms (kwargs / `other` / both / overlay / DELETE_VAR mask / masked overlay / new variable / a value that fails to convert) with a normal or "
         "exceptional exit at each level, an assignment to another variable inside, the scoped variable deleted (or assigned then deleted) inside a scope that holds it thread-locally, and an observer thread at the innermost point; views: in, [], get, detype.",
-   note="Unverified: preemption between statements of swap / two threads inside _set_item on G; threading.local itself; worker threads "
-        "copying the spawner's overrides (get/set_swapped_values); iteration and detype views (C10); $UPDATE_OS_ENVIRON mirroring; swap relies "
+   note="Unverified: preemption between statements of swap / two threads inside _set_item on G; threading.local itself; WHEN worker threads "
+        "copy the spawner's overrides (the call sites in proxies / posix; the two primitives are verified); iteration and detype views (C10); $UPDATE_OS_ENVIRON mirroring; swap relies "
         "on stronger clauses of _set_item/_del_item which are now PROVED on the real functions under their side conditions (valid value, no sync partner, variable still "
         "known at exit: contracts #strong) - what remains assumed is that these side conditions hold at swap's call sites and on with-body "
         "hypotheses (overlay stack discipline, no assignment of a swapped key in G, no deletion of a swapped override). Three genuine defects "
